@@ -1,11 +1,11 @@
 package main
 
 import (
-	"os"
 	"fmt"
 	"go/ast"
 	"go/token"
 	"go/types"
+	"os"
 	"strings"
 
 	"golang.org/x/tools/go/packages"
@@ -18,6 +18,7 @@ func checkC02(c *Ctx) {
 R02.5 (matryer) the compile-time ensure line exists iff skip-ensure is unset, at file level, for the same interface and mock;
 R02.1 (Go) TemplateGenerator.Generate takes the method set from the completed underlying interface of the name looked up in the source package's scope (Registry.LookupInterface) and walks it with NumMethods/Method(i) into methods[i]; the Explicit*/Embedded* API is not used to assemble methods;
 R02.2 (Go) methodData transfers parameters from signature.Params() and results from signature.Results(), index for index, sets Variadic exactly for the last parameter of a variadic signature and never for results, and builds Method{Name: method.Name(), Params, Returns} uncrossed;
+R02.7 (Go) the import walk over a parameter's type visits every component type of every go/types constructor (shared with C01 R01.1);
 R02.4 (Go) interface discovery does not descend into function bodies (FuncDecl and FuncLit) so a function-local type can never alias a package-level interface, and the scope lookup of a discovered name is nil-checked.`
 	c.NotDecided = "identity of rendered type strings with the source types (C14/C01 cover the accessor and import side); admissible type-argument tuples beyond the interface's own type parameters; shapes beyond the tier bound."
 	c.Assumptions = []string{"go/types assignability", "engine T's accessor table (C14)"}
@@ -130,6 +131,12 @@ R02.4 (Go) interface discovery does not descend into function bodies (FuncDecl a
 	r := loadRepo(c, packages.LoadSyntax, "", "./internal", "./template")
 	goC02(c, r)
 	accessorTableGuard(c, "R02.6")
+	// R02.7: the mock's signature is the interface's only if every package a parameter or result type mentions
+	// is registered under its qualifier: the exhaustive import walk (C01 R01.1) is a necessary condition here
+	// too (a map key's package left out renders map[pkg.K]V as map[K]V, which is another type or none)
+	c.Rule("R02.7", 10, "the import walk visits every component of every type constructor (C01 rule R01.1)")
+	rw := loadRepo(c, packages.LoadSyntax, "", "./template", "go/types")
+	subRules(c, "R02.7", "type-walk", "a parameter type is rendered as written in the source only if every package it mentions was registered: ", func(sub *Ctx) { goR011(sub, rw) })
 }
 
 func matryerEnsureLine(c *Ctx, p *TPath) {
@@ -759,7 +766,7 @@ func goR024(c *Ctx, r *Repo, ip *packages.Package, rule string) {
 	}
 	c.Func(funcKey(ip, visit))
 	// decision table of Visit over the node's dynamic type (type switch or comma-ok assertions)
-	paths, _ := enumerateFunc(info, visit)
+	paths := enumerateFollowUnexported(ip, visit) // predicates such as isCandidate(n.Type) are followed
 	returnsNilFor := func(kind string) bool {
 		n := 0
 		for _, p := range paths {
@@ -823,6 +830,43 @@ func goR024(c *Ctx, r *Repo, ip *packages.Package, rule string) {
 			return true
 		})
 		okVisitor = okVisitor && nNew == 1
+		if !(okVisitor && okWalk) && nNew == 0 {
+			// the visitor may be created and walked in a helper that the loop calls once per file with that
+			// file's tree: read the helper with the call's arguments
+			fileTree := ".Syntax[rangekey(" + fc.E(files.X) + ")]"
+			ast.Inspect(files.Body, func(n ast.Node) bool {
+				call, ok := n.(*ast.CallExpr)
+				if !ok {
+					return true
+				}
+				h := pkgFuncs(ip)[calleeFunc(info, call)]
+				hc := calleeCanon(info, fc, call, h)
+				if h == nil || hc == nil {
+					return true
+				}
+				hNew, hWalk := 0, false
+				ast.Inspect(h.Body, func(m ast.Node) bool {
+					hcall, ok := m.(*ast.CallExpr)
+					if !ok {
+						return true
+					}
+					switch strings.ReplaceAll(calleeName(info, hcall), modPath+"/", "") {
+					case "internal.NewNodeVisitor":
+						hNew++
+					case "go/ast.Walk":
+						if len(hcall.Args) == 2 {
+							v, f := hc.E(hcall.Args[0]), hc.E(hcall.Args[1])
+							hWalk = strings.HasPrefix(v, "internal.NewNodeVisitor(") && (strings.HasSuffix(f, fileTree) || strings.Contains(f, fileTree+".Decls)") && strings.HasPrefix(f, "rangeval("))
+						}
+					}
+					return true
+				})
+				if hNew == 1 && hWalk {
+					okVisitor, okWalk = true, true
+				}
+				return true
+			})
+		}
 	}
 	c.Check(okVisitor && okWalk, rule, "ParsePackages|visitor-per-file", r.Pos(pp.Pos()), "a fresh visitor walks each file's own syntax tree", "the visitor that collects candidate declarations is not created per file (inside the loop over the package's files) and walked over that file's syntax tree: names found in one file are reported again for the following files, so an interface is mocked more than once")
 }
